@@ -207,8 +207,10 @@ class Check:
         shutil.rmtree(out, ignore_errors=True)
         t0 = time.time()
         try:
+            os.makedirs(out, exist_ok=True)     # the JVM's scratch files (SANY copies of the standard modules) stay in the build tree
             p = sh(['apalache-mc', 'check', '--config=%s' % cfg, '--length=%d' % length, '--inv=%s' % inv,
-                    '--out-dir=%s' % out, '--run-dir=%s' % os.path.join(out, 'run'), module + '.tla'], timeout=timeout, cwd=SPEC)
+                    '--out-dir=%s' % out, '--run-dir=%s' % os.path.join(out, 'run'), module + '.tla'], timeout=timeout, cwd=SPEC,
+                   env={'TMPDIR': out})                  # the launcher makes its SANY scratch directory with mktemp -t
         except subprocess.TimeoutExpired:
             raise Infra('Apalache timed out on %s/%s' % (module, inv))
         wall = time.time() - t0
